@@ -26,6 +26,7 @@ func init() {
 }
 
 func runC28(c *eng.Ctx) {
+	defer runC28Offset(c)
 	p := c.P
 	E := "promql:evaluator."
 	lin := func(f *eng.Fn, e ast.Expr) string {
@@ -357,9 +358,9 @@ func runC28(c *eng.Ctx) {
 		rs.Only("R4", eng.AssignVar("subqStart"), "comes from subqueryTimeRange", func(l eng.Loc) bool {
 			return nodeText(l.Node) == "subqStart, subqEnd, subqInterval := ev.subqueryTimeRange(e)"
 		})
-		rs.Only("R4", p.Call("promql:setOffsetForAtModifier"), "re-bases @ offsets on the subquery's start when it differs from the parent's", func(l eng.Loc) bool {
+		rs.Only("R4", p.Call("promql:setOffsetForAtModifier"), "re-bases @ offsets on the subquery's start", func(l eng.Loc) bool {
 			a := eng.CallArgsText(l)
-			return len(a) == 2 && a[0] == "subqStart" && a[1] == "e.Expr" && rs.UnderCond(l, "subqStart != ev.startTimestamp")
+			return len(a) == 2 && a[0] == "subqStart" && a[1] == "e.Expr"
 		})
 		so := c.Fn("promql:setOffsetForAtModifier")
 		g := so.Closure("getOffset", eng.AssignVar("offsetForTs"))
